@@ -317,6 +317,20 @@ class Proto:
                         else:
                             raise Unsupported("zarr.open on " + where)
                         continue
+                    # missing = [l for l in range(self.num_partitions) if not P(l).exists()]   + if len(missing) > 0: raise
+                    if isinstance(value, ast.ListComp) and len(value.generators) == 1 and src(value.generators[0].iter) == "range(self.num_partitions)" \
+                            and len(value.generators[0].ifs) == 1 and src(value.elt) == src(value.generators[0].target):
+                        g = value.generators[0]
+                        k2 = dict(kinds)
+                        k2[src(g.target)] = "L"
+                        t = g.ifs[0]
+                        if isinstance(t, ast.UnaryOp) and isinstance(t.op, ast.Not) and isinstance(t.operand, ast.Call) \
+                                and isinstance(t.operand.func, ast.Attribute) and t.operand.func.attr == "exists" \
+                                and nxt is not None and self.is_nonempty_raise(nxt, targets[0].id):
+                            out.append(f"GuardAllPresent {self.sym(t.operand.func.value, env, k2)}")
+                            i += 1
+                            continue
+                        raise Unsupported("presence comprehension shape: " + text[:160])
                     # x = self.method(...)   (a method of the class that is not a path helper): inlined
                     if isinstance(value, ast.Call) and isinstance(value.func, ast.Attribute) and src(value.func.value) == "self" \
                             and value.func.attr in self.methods and value.func.attr not in self.path_methods \
@@ -594,6 +608,22 @@ class Proto:
                     and isinstance(st.test.operand, ast.Call) and isinstance(st.test.operand.func, ast.Attribute) \
                     and st.test.operand.func.attr == "exists" and len(strip(st.body)) == 1 and isinstance(strip(st.body)[0], ast.Raise):
                 out.append(f"PGuardPresent {self.sym(st.test.operand.func.value, env, kinds)}")
+                continue
+            if isinstance(st, ast.Expr) and isinstance(st.value, ast.Call) and isinstance(st.value.func, ast.Attribute) \
+                    and src(st.value.func.value) == "self" and st.value.func.attr in self.methods \
+                    and st.value.func.attr not in self.path_methods and not st.value.keywords:
+                # a helper method of the class called from the loop body: inlined, its parameters bound to the caller's indexes
+                fn = self.methods[st.value.func.attr]
+                params = [a.arg for a in fn.args.args[1:]]
+                if len(params) != len(st.value.args):
+                    raise Unsupported("helper call shape: " + text[:120])
+                k2 = {}
+                for p_, a_ in zip(params, st.value.args):
+                    kk = kinds.get(src(a_))
+                    if kk is None:
+                        raise Unsupported("helper argument with an unknown index: " + text[:120])
+                    k2[p_] = kk
+                out += self.part_body(fn.body, {}, k2)
                 continue
             if isinstance(st, ast.For) and "__listing__" in env and src(st.iter) == env["__listing__"][0] and not st.orelse:
                 var = src(st.target)
